@@ -378,7 +378,12 @@ func (x *Exec) applyContract(st *State, fr *Frame, c *Contract, sig *types.Signa
 	// allocation frontier (sound: they may alias anything old, never a later allocation of ours).
 	// Only contracts that talk about fresh() results need a new frontier.
 	if c.has("allocates") {
+		// what the callee allocates lies between the caller's frontier before the call and the
+		// frontier after it: distinct from everything older, from what other calls allocate and
+		// from the caller's own later allocations (fresh(x) in its postconditions means this)
+		sctx.allocMark = Add(st.allocBase, IntLit(st.allocK))
 		x.bumpAllocBase(st)
+		sctx.allocHi = st.allocBase
 	}
 	res := x.freshResult(st, sanitize(cname), sig.Results())
 	// bind results
